@@ -2,6 +2,7 @@ package main
 
 import (
 	"fmt"
+	"go/token"
 	"go/types"
 	"math/big"
 
@@ -123,6 +124,7 @@ type Exec struct {
 	covers   []*Obligation // reachability (must be sat) queries
 	extraAssumptions map[string]bool
 	currentLemma string
+	retPos token.Pos
 }
 
 type unsupported struct{ msg string }
